@@ -270,7 +270,11 @@ func (f *LogFile) Measurement(name []byte) MeasurementElem {
 		return nil
 	}
 
-	return mm
+	// A copy taken under the lock: the caller looks at the element (whether
+	// it is deleted) after the lock is released, while writes go on setting
+	// the flags of the log file's own element.
+	cp := *mm
+	return &cp
 }
 
 func (f *LogFile) MeasurementHasSeries(ss *tsdb.SeriesIDSet, name []byte) bool {
